@@ -382,8 +382,18 @@ func (b *Builder) findRegistryPackageSource(ctx context.Context, sourceAddr sour
 		}
 	}
 
-	selectedVersion := availableVersions.NewestInSet(allowedVersions)
-	if selectedVersion == versions.Unspecified {
+	// availableVersions is sorted in ascending order, so the newest allowed
+	// version is the last one that is a member of the set. (We don't use
+	// List.NewestInSet here because it signals "none" by returning the
+	// zero-value version, which makes version 0.0.0 unselectable.)
+	selectedVersion, found := versions.Unspecified, false
+	for i := len(availableVersions) - 1; i >= 0; i-- {
+		if allowedVersions.Has(availableVersions[i]) {
+			selectedVersion, found = availableVersions[i], true
+			break
+		}
+	}
+	if !found {
 		return sourceaddrs.RemoteSource{}, fmt.Errorf("no available version of %s matches the specified version constraint", pkgAddr)
 	}
 
